@@ -62,7 +62,9 @@
      "insert returns true exactly when the element was absent"
                                                             C07_insert_true_iff_absent,
                                                             C07_s_insert_lawful
-        (and it panics exactly when absent and full, leaving the container untouched)
+        (and it panics exactly when absent and full, leaving the container untouched; the
+         rejected element, a local of the unwinding frame, is destroyed exactly once: the log
+         grows by exactly its EvDrop events — same panic clause in C07_s_replace_lawful)
      "remove/take/contains/get report presence truthfully" C07_s_remove_lawful, C07_s_take_lawful,
                                                             C07_s_contains_lawful, C07_s_get_lawful
         (each method computes the list-machine function on elems; they are the per-method
@@ -119,7 +121,8 @@ Theorem C07_s_insert_lawful :
             end /\
             (find_idx ck (ck k) (Spec.elems (self w)) = None -> len (self w) < cap (self w)))
          (fun w' : world K unit T =>
-            stable w w' /\
+            self w' = self w /\
+            logged w w' (ev_drops (idK E k ++ idV E tt)) /\
             find_idx ck (ck k) (Spec.elems (self w)) = None /\
             len (self w) = cap (self w))
          w.
@@ -144,7 +147,8 @@ Theorem C07_s_replace_lawful :
             end /\
             (find_idx ck (ck k) (Spec.elems (self w)) = None -> len (self w) < cap (self w)))
          (fun w' : world K unit T =>
-            stable w w' /\
+            self w' = self w /\
+            logged w w' (ev_drops (idK E k ++ idV E tt)) /\
             find_idx ck (ck k) (Spec.elems (self w)) = None /\
             len (self w) = cap (self w))
          w.
